@@ -243,3 +243,7 @@ def _returned(body, op):
   slr = body.slice_of([op], through_calls=True)
   named = {l for l in slr.locals if body.local_name(l)}
   return bool(named & sl0.locals)
+
+
+# sensitivity pack (thorough tier): each seeded edit must be reported by the named rule instance
+MUTANTS = [{'name': 'seeded-C08-a', 'patch': 'C08-a/patch.diff', 'expect': ('R8.1', 'index_runes', 'added to burned')}]
